@@ -24,7 +24,10 @@ BUILD_TARGETS = ["GPVerif.Props.C05", "GPVerif.Gen.Formulas", "GPVerif.Gen.Kerne
 RULE = ("per exported kernel class: random parameter values across their ranges (public setters), d in 1..4, "
         "n1 != n2, x2 absent / different / sharing rows with x1 / duplicated rows, ARD and non-ARD, batch; every "
         "path selector on and off (inputs.requires_grad, params.requires_grad, diag, trace_mode, lazy evaluation); "
-        "distinct = distinct (kernel spec, inputs, flags); non-trivial = the expected matrix is not constant")
+        "distinct = distinct (kernel spec, inputs, flags); non-trivial = the expected matrix is not constant; "
+        "stream object_reuse: ONE kernel object per family evaluated on a sequence of calls whose shapes (n1, n2, d, "
+        "batch) change with coinciding n*d / n*(d+1) / n*(2d+1) / n1*n2 / B*n, alternating full / diag / x1-only / eager / "
+        "last_dim_is_batch, train()/eval() and parameter re-sets in between; every call compared with the Spec")
 TRUSTED = ["translator harness/translate/g5_formulas.py (Python ast -> scalar terms; in-place aliasing semantics)",
            "libm-class exp/sqrt/sin/cos/pow of Lean Float and of torch agree to 1e-10 relative",
            "modelled not verified: torch tensor primitives, torch.cdist, linear_operator to_dense()"]
@@ -114,12 +117,24 @@ def _T(vals, batched):
     return t if batched else t[0]
 
 
-def build(specs, batched):
-    """specs: one spec dict per batch element (same structure).  Returns the gpytorch kernel (float64)."""
+class CannotReparam(Exception):
+    pass
+
+
+def build(specs, batched, into=None):
+    """specs: one spec dict per batch element (same structure).  Returns the gpytorch kernel (float64).
+
+    `into`: an EXISTING kernel object of the same structure — nothing is constructed, only the parameter values of
+    `specs` are written through the public setters (history step "set parameters between two calls")."""
     import torch
     import gpytorch.kernels as K
     s0 = specs[0]
     t = s0["t"]
+    if into is not None:
+        class _Reuse:                      # every constructor call below returns the existing object instead
+            def __getattr__(self, _name):
+                return lambda *a, **kw: into
+        K = _Reuse()
     bs = torch.Size([len(specs)]) if batched else torch.Size([])
     kw = {"batch_shape": bs}
     if s0.get("active") is not None:
@@ -203,34 +218,41 @@ def build(specs, batched):
         k = K.GaussianSymmetrizedKLKernel(**kw)
         k.lengthscale = P("l", (1, 1))
     elif t == "arc":
-        base = build([sp["base"] for sp in specs], False)
+        base = build([sp["base"] for sp in specs], False, None if into is None else into.base_kernel)
         k = K.ArcKernel(base, ard_num_dims=ard(), **kw)
         setls(k)
         k.angle = P("angle", (1, len(s0["angle"])))
         k.radius = P("radius", (1, len(s0["radius"])))
     elif t == "arcm":
-        base = build([sp["base"] for sp in specs], False)
+        base = build([sp["base"] for sp in specs], False, None if into is None else into.base_kernel)
         thr = torch.tensor(s0["thr"], dtype=torch.float64)
         k = K.ArcKernel(base, delta_func=lambda x: (x > thr).to(x.dtype), ard_num_dims=ard(), **kw)
         setls(k)
         k.angle = P("angle", (1, len(s0["angle"])))
         k.radius = P("radius", (1, len(s0["radius"])))
     elif t == "cyl":
-        radial = build([sp["radial"] for sp in specs], batched)
+        radial = build([sp["radial"] for sp in specs], batched, None if into is None else into.radial_base_kernel)
         k = K.CylindricalKernel(num_angular_weights=len(s0["w"]), radial_base_kernel=radial, eps=s0["eps"], **kw)
         k.angular_weights = P("w", (len(s0["w"]),))
         k.alpha = P("alpha", (1,))
         k.beta = P("beta", (1,))
     elif t == "scale":
-        k = K.ScaleKernel(build([sp["k"] for sp in specs], batched), batch_shape=bs)
+        k = K.ScaleKernel(build([sp["k"] for sp in specs], batched, None if into is None else into.base_kernel),
+                          batch_shape=bs)
         k.outputscale = P("s", ())
     elif t in ("add", "mul"):
+        if into is not None:
+            if len(into.kernels) != len(s0["ks"]):
+                raise CannotReparam("the library flattened this expression")
+            for i in range(len(s0["ks"])):
+                build([sp["ks"][i] for sp in specs], batched, into.kernels[i])
+            return into
         parts = [build([sp["ks"][i] for sp in specs], batched) for i in range(len(s0["ks"]))]
         k = parts[0]
         for p in parts[1:]:
             k = (k + p) if t == "add" else (k * p)
     elif t in ("addstruct", "prodstruct", "ng"):
-        base = build([sp["k"] for sp in specs], batched)
+        base = build([sp["k"] for sp in specs], batched, None if into is None else into.base_kernel)
         d = s0["d"]
         with warnings.catch_warnings():
             warnings.simplefilter("ignore")
@@ -366,6 +388,12 @@ def tokens_dim(spec, k, b, batched, l):
         return f"linear {vec(pick(g(k.variance)))}"
     if t == "scale":
         return f"scale {num(g(k.outputscale)[0])} {tokens_dim(spec['k'], k.base_kernel, b, batched, l)}"
+    if t == "cosine":
+        return f"cosine {num(g(k.period_length)[0])}"
+    if t == "poly":
+        return f"poly {num(g(k.offset)[0])} {int(spec['p'])}"
+    if t == "const":
+        return f"const {num(g(k.constant)[0])}"
     raise ValueError(f"no per-dimension slice for {t}")
 
 
@@ -795,6 +823,16 @@ def gen_cases(ctx, rng):
                 if flags.get("diag") and x2 is not None:
                     continue
                 emit(f"hamming/{tag}", [sp], False, x1, x2, flags)
+        # Hamming with a kernel batch_shape (per-batch alpha / beta) and on batched inputs; n == B on purpose in one cell
+        Bh = rng.choice([2, 3])
+        spB = [dict(rand_leaf(rng, "hamming", V * Tn), vocab=V) for _ in range(Bh)]
+        for n1h, n2h in (tuple(rng.sample([x for x in (1, 2, 3, 4, 5) if x != Bh], 2)), (Bh, Bh + 1)):
+            xb1 = [onehot(rng, n1h, 0) for _ in range(Bh)]
+            xb2 = [onehot(rng, n2h, 0) for _ in range(Bh)]
+            for flags in [{}, {"diag": True}, {"lazy": False}]:
+                x2 = None if flags.get("diag") else xb2
+                emit("hamming/kernel-batch", spB, True, xb1, x2, flags, xbatch=Bh)
+                emit("hamming/input-batch", [spB[0]], False, xb1, x2, flags, xbatch=Bh)
         # symmetrised KL on [means ++ log-variances]
         dd = rng.randint(1, 3)
         sp = rand_leaf(rng, "gskl", 2 * dd)
@@ -877,15 +915,20 @@ def classes_in(spec, acc):
     return acc
 
 
-def eval_real(case):
-    """Returns (list over batch of numpy arrays [matrix or diag vector], kernel, path tag) — or raises."""
+def eval_real(case, k=None):
+    """Returns (list over batch of numpy arrays [matrix or diag vector], kernel, path tag) — or raises.
+    `k`: an existing kernel object to be (re)used for this call instead of a freshly built one."""
     import torch
     import gpytorch
     fl = case["flags"]
-    k = build(case["kern"], case["batched"])
-    if fl.get("param_grad") is False:
+    if k is None:
+        k = build(case["kern"], case["batched"])
+        if fl.get("param_grad") is False:
+            for p in k.parameters():
+                p.requires_grad_(False)
+    else:
         for p in k.parameters():
-            p.requires_grad_(False)
+            p.requires_grad_(fl.get("param_grad") is not False)
     x1 = torch.tensor(case["x1"], dtype=torch.float64)
     x2 = None if case["x2"] is None else torch.tensor(case["x2"], dtype=torch.float64)
     if fl.get("same_obj"):
@@ -935,7 +978,7 @@ def lean_lines(case, k):
     return lines
 
 
-def compare(ctx, case, real, expected, specs_x, key_prefix=None):
+def compare(ctx, case, real, expected, specs_x, key_prefix=None, suffix="", payload=None, what=""):
     """real / expected: lists over batch.  Returns number of failures reported."""
     import numpy as np
     fails = 0
@@ -947,8 +990,8 @@ def compare(ctx, case, real, expected, specs_x, key_prefix=None):
         else:
             exp_c, extra_c = exp, extra
         if got.shape != exp_c.shape:
-            ctx.fail(f"{family_of(spec)}/shape", f"{case['desc']}: output shape {got.shape}, expected {exp_c.shape}",
-                     {"case": case})
+            ctx.fail(f"{family_of(spec)}/shape{suffix}", f"{case['desc']}: output shape {got.shape}, expected {exp_c.shape}{what}",
+                     payload or {"case": case})
             fails += 1
             continue
         scale = max(1.0, float(np.abs(exp).max()) if exp.size else 1.0, bound if math.isfinite(bound) else 1.0)
@@ -958,10 +1001,10 @@ def compare(ctx, case, real, expected, specs_x, key_prefix=None):
         if bad.any():
             idx = np.unravel_index(np.argmax(np.where(bad, err / np.maximum(tol, 1e-300), 0)), err.shape)
             mode = "diag" if case["flags"].get("diag") else "full"
-            ctx.fail(f"{family_of(spec)}/{mode}",
+            ctx.fail(f"{family_of(spec)}/{mode}{suffix}",
                      f"{case['desc']} flags={case['flags']}: entry {tuple(int(i) for i in idx)} is {got[idx]!r}, "
-                     f"documented formula gives {exp_c[idx]!r} (|diff| {err[idx]:.3e}, tol {tol[idx]:.1e})",
-                     {"case": case, "batch_index": b})
+                     f"documented formula gives {exp_c[idx]!r} (|diff| {err[idx]:.3e}, tol {tol[idx]:.1e}){what}",
+                     payload or {"case": case, "batch_index": b})
             fails += 1
     return fails
 
@@ -1013,19 +1056,22 @@ def run_cases(ctx, cases, q):
 
 # ------------------------------------------------------------------------------------------- other streams
 
-def _grad_module(r):
+def _grad_module(r, k=None):
+    """`k`: an existing derivative-kernel object to be reused (its parameters are read back), else a fresh one"""
     import torch
     import gpytorch.kernels as K
     d = len(r["x1"][0])
     ard = d if r["ard"] else None
     cls = {"rbfgrad": K.RBFKernelGrad, "m52grad": K.Matern52KernelGrad, "rbfgradgrad": K.RBFKernelGradGrad}.get(r["kind"])
     if cls is None:
-        k = K.PolynomialKernelGrad(power=r["p"]).double()
-        k.offset = torch.tensor([r["c"]], dtype=torch.float64)
+        if k is None:
+            k = K.PolynomialKernelGrad(power=r["p"]).double()
+            k.offset = torch.tensor([r["c"]], dtype=torch.float64)
         head = f"G polygrad {num(k.offset.item())} {r['p']}"
     else:
-        k = cls(ard_num_dims=ard).double()
-        k.lengthscale = torch.tensor([r["ls"]], dtype=torch.float64)
+        if k is None:
+            k = cls(ard_num_dims=ard).double()
+            k.lengthscale = torch.tensor([r["ls"]], dtype=torch.float64)
         head = f"G {r['kind']} {vec(k.lengthscale.detach().reshape(-1).tolist())}"
     line = f"{head} {mat(r['x1'])} {mat(r['x2'] if r['x2'] is not None else r['x1'])}"
     return k, line
@@ -1044,14 +1090,14 @@ def _grad_eval(k, r, lazy=True):
             return (k(X1, X2) if X2 is not None else k(X1)).to_dense().detach().numpy()
 
 
-def _grad_compare(ctx, r, got, exp):
+def _grad_compare(ctx, r, got, exp, suffix="", payload=None, what=""):
     import numpy as np
     cname = r["cname"]
     scale = max(1.0, float(np.abs(exp).max()))
     e = np.diagonal(exp) if r["tag"] == "diag" else exp
-    payload = {"grad_case": {k_: v for k_, v in r.items() if k_ not in ("got", "auto", "h")}}
+    payload = payload or {"grad_case": {k_: v for k_, v in r.items() if k_ not in ("got", "auto", "h")}}
     if got.shape != e.shape:
-        ctx.fail(f"{cname}/{r['tag']}/shape", f"shape {got.shape}, expected {e.shape}", payload)
+        ctx.fail(f"{cname}/{r['tag']}/shape{suffix}", f"shape {got.shape}, expected {e.shape}{what}", payload)
         return
     err = np.abs(got - e)
     tol = RTOL * np.abs(e) + 1e-11 * scale
@@ -1060,9 +1106,9 @@ def _grad_compare(ctx, r, got, exp):
         d = len(r["x1"][0])
         m = (2 * d + 1) if r["kind"] == "rbfgradgrad" else (d + 1)
         comp = tuple(min(int(i) % m, 1) if r["kind"] != "rbfgradgrad" else min((int(i) % m + d - 1) // d, 2) for i in idx)
-        ctx.fail(f"{cname}/{'diag' if r['tag'] == 'diag' else 'full'}/block{comp}",
+        ctx.fail(f"{cname}/{'diag' if r['tag'] == 'diag' else 'full'}/block{comp}{suffix}",
                  f"{cname} ({r['tag']}) entry {tuple(int(i) for i in idx)} is {got[idx]!r}, the partial derivative of the "
-                 f"base kernel is {e[idx]!r} (|diff| {err[idx]:.3e})", payload)
+                 f"base kernel is {e[idx]!r} (|diff| {err[idx]:.3e}){what}", payload)
 
 
 def grad_kernel_cases(ctx, rng, q):
@@ -1630,6 +1676,11 @@ def coverage_table(covered):
     return table
 
 
+def _reuse():
+    from props import _c05_reuse
+    return _c05_reuse
+
+
 def correspondence(ctx):
     import torch
     torch.set_num_threads(2)
@@ -1649,7 +1700,8 @@ def correspondence(ctx):
             task_kernels(ctx, ctx.rng("task"), q),
             misc_checks(ctx, ctx.rng("misc"), q),
             interaction_terms(ctx, ctx.rng("interaction"), q),
-            generated_kernels(ctx, ctx.rng("genk"), q)]
+            generated_kernels(ctx, ctx.rng("genk"), q),
+            _reuse().object_reuse(ctx, sys.modules[__name__], ctx.rng("reuse"), q)]
     covered |= {"RBFKernelGrad", "Matern52KernelGrad", "PolynomialKernelGrad", "RBFKernelGradGrad",
                 "IndexKernel", "MultitaskKernel", "LCMKernel"}
     q.run()
@@ -1780,6 +1832,8 @@ def replay(ctx, payload):
     elif "grad_case" in c:
         r = c["grad_case"]
         _replay_grad(ctx, r)
+    elif "session" in c or "grad_session" in c or "task_session" in c:
+        _reuse().replay(ctx, sys.modules[__name__], c)
     elif "call" in c or "covars" in c or "max_degree" in c:
         q = Q()
         fins = [misc_checks(ctx, ctx.rng("misc"), q), interaction_terms(ctx, ctx.rng("interaction"), q)]
